@@ -160,10 +160,10 @@ type Explorer struct {
 	nenv atomic.Int64
 
 	Nodes, Txs, MemoHits, ColdHits, States, EnvNanos, RunTxs atomic.Int64
-	stateSet                               sync.Map
-	mu                                     sync.Mutex
-	Mis                                    []Mismatch
-	single                                 map[string]string // fam|seq -> observed "rets#dump" of the single-tx history
+	stateSet                                                 sync.Map
+	mu                                                       sync.Mutex
+	Mis                                                      []Mismatch
+	single                                                   map[string]string // fam|seq -> observed "rets#dump" of the single-tx history
 }
 
 func (x *Explorer) pkgs() []Pkg {
@@ -413,9 +413,17 @@ func (x *Explorer) node(e *Env, t task, hist []string, seq string, memo *taskMem
 
 // Report minimises the mismatches (per family and class: shortest sequence, fewest transactions, lexicographic)
 // and reports them as violations.
-func (x *Explorer) Report() {
+func (x *Explorer) Report() { x.ReportOnly("") }
+
+// ReportOnly reports only the mismatch classes with the given prefix ("" = all).
+func (x *Explorer) ReportOnly(prefix string) {
 	x.mu.Lock()
-	mis := append([]Mismatch{}, x.Mis...)
+	var mis []Mismatch
+	for _, m := range x.Mis {
+		if strings.HasPrefix(m.Class, prefix) {
+			mis = append(mis, m)
+		}
+	}
 	x.mu.Unlock()
 	type key struct{ fam, class string }
 	best := map[key]Mismatch{}
